@@ -88,7 +88,10 @@ async fn serve(listener: TcpListener, ep: Arc<Mutex<Endpoint>>) {
                     .unwrap_or_else(|| "?".into());
                 let outcome = {
                     let mut e = ep.lock().unwrap();
-                    let o = match e.scripts.get_mut(&data_hex) {
+                    // a script is keyed by `<tag>:<data>` (the endpoint path without its slash) or by `<data>` alone
+                    let keyed = format!("{}:{}", path.trim_start_matches('/'), data_hex);
+                    let key = if e.scripts.contains_key(&keyed) { keyed } else { data_hex.clone() };
+                    let o = match e.scripts.get_mut(&key) {
                         Some(v) if !v.is_empty() => v.remove(0),
                         _ => "200".to_string(),
                     };
